@@ -838,12 +838,12 @@ pub fn codec_run_c16(rec: &mut CodecRec, rng: &mut Prng, tys: &[CodecTy], bad_g1
             for sm in ty.samples.iter().take(if thorough { 3 } else { 1 }) {
                 for (ml, input) in codec_json_hex_mutations(&sm.json) {
                     let lab = ml.split(':').nth(1).unwrap_or("");
-                    if !["short_minus_2", "short_half", "short_2", "long_plus_2", "long_double"].contains(&lab) {
-                        continue;
+                    if lab == "uppercase" {
+                        continue; // upper-case hex is a valid spelling of the same bytes
                     }
                     let key = format!("{}|json|{}|{}", ty.name, sm.label, ml);
                     let det = json!({"base": sm.label, "kind": ml});
-                    codec_c16_expect_err(rec, ty, CODEC_JSON, "json_rejects_missized_hex", key, &input, det);
+                    codec_c16_expect_err(rec, ty, CODEC_JSON, "json_rejects_malformed_hex", key, &input, det);
                 }
             }
         }
@@ -2152,6 +2152,28 @@ macro_rules! search_codec {
                 codec_c16_secret_key_enum(&mut rec);
             }
             rec.finish();
+        }
+
+        /// the decoding checks of C16 restricted to the named types (used by the properties whose data they are:
+        /// an altered encoding that still decodes is an altered value that is accepted)
+        pub fn codec_forms_of(s: &mut Search, rng: &mut Prng, thorough: bool, names: &[&str]) {
+            let mut rec = CodecRec::new(s, CODEC_IMPL, 2);
+            let Some(ctx) = codec_ctx(rng) else {
+                rec.case("codec_companions_panicked", "ctx".into(), false, json!({"impl": CODEC_IMPL}));
+                return;
+            };
+            let nbad = if thorough { 12 } else { 4 };
+            let bad_g1 = codec_bad_points(rng, true, nbad);
+            let bad_g2 = codec_bad_points(rng, false, nbad);
+            let tys: Vec<CodecTy> = codec_types(rng, if thorough { 1 } else { 0 }, thorough, &ctx).into_iter().filter(|t| names.contains(&t.name)).collect();
+            codec_run_c16(&mut rec, rng, &tys, &bad_g1, &bad_g2, thorough);
+            rec.finish();
+        }
+        pub fn c09_forms(s: &mut Search, rng: &mut Prng, thorough: bool) {
+            codec_forms_of(s, rng, thorough, &["proof_of_possession", "public_key"]);
+        }
+        pub fn c02_forms(s: &mut Search, rng: &mut Prng, thorough: bool) {
+            codec_forms_of(s, rng, thorough, &["signature", "public_key"]);
         }
 
         /// ProofOfKnowledgeTimestamp::verify over edge timestamps x timeouts (past ones first)
